@@ -198,6 +198,10 @@ def cmd_run(pkg, pysrc, cases, out):
                 w.write(json.dumps(rec, ensure_ascii=not all(ord(x) < 0xD800 or ord(x) > 0xDFFF for x in "".join(rec.get("lit", [])))) + "\n")
                 continue
             try:
+                # every token and error takes a bounded number of bytes, and there are at most a few tokens per character:
+                # a payload far beyond that is not the result of this call (and decoding it in Python would take minutes)
+                if len(raw) > 96 * (len(src.encode("utf-8", "surrogatepass")) + 16) + 2048:
+                    raise ValueError("payload of %d bytes for a source of %d characters" % (len(raw), len(src)))
                 payload = unpack(raw)
                 toks_raw, errs_raw, lit = payload
                 toks = []
